@@ -218,7 +218,36 @@ def k8s_harness(root):
             "pending": lambda ex: len(ex.pending_k8s_jobs) + ex.arrayer.num_pending, "running": lambda ex: ex.is_running}
 
 
-HARNESSES = {"docker": docker_harness, "k8s": k8s_harness, "aws_glue": glue_harness, "aws_batch": batch_harness, "aws_batch+arrayer": lambda root: batch_harness(root, arrayer=True)}
+# ------------------------------------------------------------------------------------------------ gcp batch
+def gcp_harness(root):
+    """GCPBatchExecutor without job arrays: GCP Batch API faked (every task is reported SUCCEEDED when looked up)."""
+    import redun.executors.gcp_batch as mod
+    from redun.config import Config
+    from redun.executors import gcp_utils
+
+    conf = Config({"e": {"image": "img", "project": "p", "region": "r", "gcs_scratch": os.path.join(root, "scratch"), "job_monitor_interval": "1",
+                         "code_package": "False", "min_array_size": "0", "debug_scratch": os.path.join(root, "debug")}})["e"]
+    ns = types.SimpleNamespace
+    counter = [0]
+
+    def batch_submit(client=None, job_name=None, **kw):
+        counter[0] += 1
+        return ns(name=f"jobs/{job_name}", uid=f"uid{counter[0]}", task_groups=[ns(name=f"jobs/{job_name}/taskGroups/group0")])
+
+    def get_task(client=None, task_name=None):
+        return ns(name=task_name, status=ns(state=mod.TaskStatus.State.SUCCEEDED))
+
+    patches = [(gcp_utils, "get_gcp_batch_client", lambda *a, **k: object()), (gcp_utils, "get_gcp_compute_client", lambda *a, **k: object()),
+               (gcp_utils, "batch_submit", batch_submit), (gcp_utils, "get_task", get_task),
+               (gcp_utils, "get_compute_machine_type", lambda *a, **k: ns(memory_mb=16384, guest_cpus=4)), (mod, "parse_job_result", lambda scratch, job: (1, True)),
+               (mod, "get_oneshot_command", lambda *a, **k: ["true"]), (mod.GCPBatchExecutor, "gather_inflight_jobs", lambda self: None)]
+    ex_cls = mod.GCPBatchExecutor
+    funcs = [ex_cls._start, ex_cls.stop, ex_cls._monitor, ex_cls._process_task_status, ex_cls._submit, ex_cls._submit_single_job, ex_cls._submit_jobs]
+    return {"mod": mod, "cls": "GCPBatchExecutor", "conf": conf, "patches": patches, "funcs": funcs, "thread": lambda ex: ex._thread, "shim_modules": [mod],
+            "pending": lambda ex: len(ex.pending_batch_tasks) + ex.arrayer.num_pending, "running": lambda ex: ex.is_running}
+
+
+HARNESSES = {"docker": docker_harness, "gcp_batch": gcp_harness, "k8s": k8s_harness, "aws_glue": glue_harness, "aws_batch": batch_harness, "aws_batch+arrayer": lambda root: batch_harness(root, arrayer=True)}
 
 
 def scenario(case, prefix):
@@ -316,13 +345,14 @@ def run(ctx):
     cap = 10**7
     if ctx.quick:
         cases = [({"executor": "docker", "jobs": 2, "pause": 1}, 2), ({"executor": "aws_batch", "jobs": 2, "pause": 3}, 1),
-                 ({"executor": "aws_glue", "jobs": 2, "pause": 3}, 1), ({"executor": "k8s", "jobs": 2, "pause": 2}, 1),
+                 ({"executor": "aws_glue", "jobs": 2, "pause": 3}, 1), ({"executor": "k8s", "jobs": 2, "pause": 2}, 1), ({"executor": "gcp_batch", "jobs": 2, "pause": 2}, 1),
                  ({"executor": "aws_batch", "jobs": 2, "pause": 1}, 1), ({"executor": "aws_batch+arrayer", "jobs": 2, "pause": 3}, 1)]
     else:
         cases = [({"executor": "docker", "jobs": 2, "pause": 1}, 3), ({"executor": "docker", "jobs": 3, "pause": 1}, 2), ({"executor": "docker", "jobs": 2, "pause": 2}, 2),
                  ({"executor": "aws_batch", "jobs": 2, "pause": 3}, 2), ({"executor": "aws_batch", "jobs": 2, "pause": 1}, 2), ({"executor": "aws_batch", "jobs": 3, "pause": 3}, 1),
                  ({"executor": "aws_batch+arrayer", "jobs": 2, "pause": 3}, 2), ({"executor": "aws_glue", "jobs": 2, "pause": 3}, 2), ({"executor": "aws_glue", "jobs": 3, "pause": 2}, 1),
-                 ({"executor": "k8s", "jobs": 2, "pause": 2}, 2), ({"executor": "k8s", "jobs": 2, "pause": 1}, 2), ({"executor": "k8s", "jobs": 3, "pause": 2}, 1)]
+                 ({"executor": "k8s", "jobs": 2, "pause": 2}, 2), ({"executor": "k8s", "jobs": 2, "pause": 1}, 2), ({"executor": "k8s", "jobs": 3, "pause": 2}, 1),
+                 ({"executor": "gcp_batch", "jobs": 2, "pause": 2}, 2), ({"executor": "gcp_batch", "jobs": 2, "pause": 1}, 2), ({"executor": "gcp_batch", "jobs": 3, "pause": 2}, 1)]
     case_bounds = list(cases)
     roots = ctx.pmap(explore_case, [(c, b, cap, "roots") for c, b in cases], chunksize=1)
     check_harness_errors(roots)
